@@ -50,7 +50,7 @@ EDITS = [("set_pts", 3), ("set_weights", 2), ("set_knots", 1.5), ("redefine", 1)
          ("insert", 2), ("remove", 1), ("refine", 0.7), ("reverse", 2), ("transpose", 1.5), ("flip", 1),
          ("translate", 1.5), ("rotate", 0.8), ("scale", 1), ("deepcopy", 1.2), ("transform_copy", 0.8)]
 REJECTS = ["bad_delta", "bad_sample", "bad_knots", "bad_point", "bad_insert", "bad_weights"]
-CONT_OPS = [("cadd", 3), ("cdelta", 1), ("csample", 1), ("cread", 3), ("ctess", 1)]
+CONT_OPS = [("cadd", 3), ("cdelta", 1), ("csample", 1), ("cread", 3), ("ctess", 1), ("ccopy", 0.8)]
 
 
 def gen(prop, stream, tier, avoid):
@@ -564,6 +564,47 @@ def _check_container(ctx, world, ci, views, when):
         c["warm"].add(view)
 
 
+def _container_copy_probe(ctx, world, ci, op):
+    """Deep copies are independent - for containers too: the copy is a usable container of copies; editing it (adding an
+    element, changing its sampling, editing one of its elements) never changes the original."""
+    c = world.conts[ci]
+    cont = c["obj"]
+    sig = dict(kind="container:" + c["kind"], rational="-")
+    before = [_prim(world.objs[m]) for m in c["members"]]
+    n_before = len(cont)
+    try:
+        dup = copy.deepcopy(cont)
+        extra = _twin(world.objs[c["members"][0]])
+        dup.add(extra)
+        dup.delta = 0.5 if c["kind"] == "curve" else [0.5] * {"surface": 2, "volume": 3}[c["kind"]]
+        first = dup[0]
+        pts = first.ctrlptsw if first.rational else first.ctrlpts
+        moved = [[x + 1.0 for x in p] for p in pts]
+        sizes = shapes.definition(first)["sizes"]
+        first.set_ctrlpts(moved, *sizes)
+        got = [list(p) for p in dup.evalpts]
+    except Exception as e:
+        ctx.fail("copy_unusable", "a deep copy of a %s container with %d element(s) cannot be used like a container: %r" % (c["kind"], n_before, e),
+                 view="container.deepcopy", **sig)
+    if len(cont) != n_before or len(dup) != n_before + 1:
+        ctx.fail("copy_not_independent", "adding to a deep copy of a container changed the original (%d -> %d elements, copy has %d)" % (
+            n_before, len(cont), len(dup)), op="ccopy", kind="container:" + c["kind"], rational="-")
+    after = [_prim(world.objs[m]) for m in c["members"]]
+    for m, b, a in zip(c["members"], before, after):
+        # the probe sets the copy's delta, which the copy pushes into ITS elements only
+        if b != a:
+            ctx.fail("copy_not_independent", "editing a deep copy of a container changed element #%d of the original" % m,
+                     op="ccopy", kind="container:" + c["kind"], rational="-")
+    fresh = cont.__class__()
+    fresh.delta = dup.delta if c["kind"] == "curve" else list(dup.delta)
+    for e in dup:
+        fresh.add(shapes.twin(e))
+    exp = [list(p) for p in fresh.evalpts]
+    _compare(ctx, "deep copy of %s container #%d after add / delta / element edit" % (c["kind"], ci), "container.evalpts", got, exp, sig)
+    ctx.log("ccopy", ci, len(dup))
+    ctx.probe("container_deepcopy_checked")
+
+
 def _mark_edit(world, i, lv):
     if lv.warm:
         lv.edited_warm = True
@@ -606,7 +647,7 @@ def run(script, ctx):
             ctx.ops_executed += 1
             targeted.add(i)   # evaluate/tessellate may legitimately touch nothing primary, but keep it simple
 
-        elif k in ("cadd", "cdelta", "csample", "cread", "ctess"):
+        elif k in ("cadd", "cdelta", "csample", "cread", "ctess", "ccopy"):
             if not world.conts:
                 ctx.ops_skipped += 1
                 continue
@@ -626,6 +667,11 @@ def run(script, ctx):
                     c["edited_warm"] = True
                 c["warm"] = set()
                 ctx.log("cadd", ci, i)
+            elif k == "ccopy":
+                if not c["members"] or any(world.objs[m].undefined for m in c["members"]):
+                    ctx.ops_skipped += 1
+                    continue
+                _container_copy_probe(ctx, world, ci, op)
             elif k == "ctess":
                 if c["kind"] != "surface" or not c["members"] or any(world.objs[m].undefined for m in c["members"]):
                     ctx.ops_skipped += 1
